@@ -227,6 +227,9 @@ def parts(tier):
     out.append(Part('reconnect-other-maxdata', sc, run_reconnect, what='push, connect() again (with or without close()) to a device announcing another maxdata, push again',
                     bound='%d cases' % len(sc)))
     if tier == 'thorough':
+        c = chunk_of(65536)
+        sc = [{'M': 65536, 'size': z, 'twin': twins[z % 2]} for z in range(0, 3 * c + 65)]
+        out.append(Part('all-sizes-maxdata-64k', sc, run_push, what='every file size 0..3*chunk+64 at maxdata 64 KiB (twins alternating)', bound='%d pushes' % len(sc)))
         sc = [{'M': M, 'size': 5 * 1024 * 1024 + d, 'twin': t, 'src': s} for M in (4096, 1024 * 1024) for d in (0, 1) for t in twins for s in ('bytes', 'file')]
         out.append(Part('multi-mib', sc, run_push, what='5 MiB files', bound='%d pushes' % len(sc)))
     return out
